@@ -24,6 +24,20 @@ pub type Index = usize;
 
 const MAX_ANALYSIS_DURATION: Duration = Duration::from_secs(10);
 
+/// Verification hook: a deterministic stand-in for the time box of the
+/// propagation loops (the number of passes each loop may perform).
+#[cfg(feature = "verif")]
+pub mod verif {
+    use std::cell::Cell;
+    thread_local! {
+        pub static VALUE_PASSES: Cell<Option<usize>> = Cell::new(None);
+        pub static DEGREE_PASSES: Cell<Option<usize>> = Cell::new(None);
+    }
+    pub(super) fn exhausted(budget: &'static std::thread::LocalKey<Cell<Option<usize>>>, passes: usize) -> bool {
+        budget.with(|b| matches!(b.get(), Some(max) if passes >= max))
+    }
+}
+
 #[derive(Clone)]
 pub enum DefinitionType {
     Function,
@@ -462,7 +476,16 @@ impl Cfg {
         }
         let mut rerun = true;
         let start = Instant::now();
+        #[cfg(feature = "verif")]
+        let mut passes = 0;
         while rerun {
+            #[cfg(feature = "verif")]
+            {
+                if verif::exhausted(&verif::DEGREE_PASSES, passes) {
+                    break;
+                }
+                passes += 1;
+            }
             // Rerun degree propagation if a single child node was updated.
             rerun = false;
             for basic_block in self.iter_mut() {
@@ -482,7 +505,16 @@ impl Cfg {
         let mut env = ValueEnvironment::new(&self.constants);
         let mut rerun = true;
         let start = Instant::now();
+        #[cfg(feature = "verif")]
+        let mut passes = 0;
         while rerun {
+            #[cfg(feature = "verif")]
+            {
+                if verif::exhausted(&verif::VALUE_PASSES, passes) {
+                    break;
+                }
+                passes += 1;
+            }
             // Rerun value propagation if a single child node was updated.
             rerun = false;
             for basic_block in self.iter_mut() {
